@@ -65,7 +65,8 @@ pub fn budgeted<T, F: FnMut() -> T>(ctx: &mut Ctx, label: &str, n: u64, quadrati
         Ok(v) => {
             ctx.count("queries-under-budget");
             ctx.maxv(if quadratic { "max-steps:quadratic-kind" } else { "max-steps:linear-kind" }, used);
-            if n > 0 {
+            ctx.maxv("max-fraction-of-budget-used-x1000", used.saturating_mul(1000) / budget.max(1));
+            if n >= 256 {
                 ctx.maxv(if quadratic { "max-steps-per-n^2-x1000:quadratic-kind" } else { "max-steps-per-byte-x1000:linear-kind" }, if quadratic { used.saturating_mul(1000) / (n * n).max(1) } else { used.saturating_mul(1000) / n });
             }
             ctx.maxv("max-wall-us", (wall * 1e6) as u64);
@@ -377,7 +378,8 @@ fn finish_walk(ctx: &mut Ctx, r: Result<(), PanicReport>, s: &Sink, what: &str, 
     ctx.maxv("max-steps:quadratic-kind", s.max_steps_quadratic);
     ctx.maxv("max-iter-items", s.max_iter_items);
     let n = data.len() as u64;
-    if n > 0 {
+    ctx.maxv("max-fraction-of-budget-used-x1000", s.max_budget_fraction_x1000);
+    if n >= 256 {
         ctx.maxv("max-steps-per-byte-x1000:linear-kind", s.max_steps_linear.saturating_mul(1000) / n);
     }
     match r {
